@@ -69,6 +69,8 @@ MUTANTS += [
     ('revert-c08-flush', ['C08'], 'core/output/stream.py', "print(string, file=self.file, flush=True)", "print(string, file=self.file)"),
     ('revert-c16-exact-second', ['C16'], CT, "        if round(delta, 6) > 1.0:\n", "        if delta > 1.0:\n"),
     ('revert-c11-tilde-in-string', ['C11'], CT, "            elif c == '~' and not in_string:\n", "            elif c == '~':\n"),
+    ('revert-c18-nesting-limit', ['C18'], MA, "    _check_nesting(text)\n", ""),
+    ('revert-c18-prefix-recursion', ['C18'], CT, "        input_line = re.sub(r'^(?:wl?(?:\\s+|$))+', '', input_line)\n", "        if re.match(r'^wl?(\\s|$)', input_line):\n            self.process_command(input_line[2:] if input_line.startswith('wl') else input_line[1:])\n            return\n"),
     ('revert-c13-closed-order', ['C13'], P, "            self.known_connections[conn_id] = None\n", "            self.known_connections[conn_id] = None\n            self.known_connections = dict.fromkeys(set(self.known_connections))\n"),
     ('revert-c18-pipe-strict-stdin', ['C18', 'C13'], 'main.py', "sys.stdin.reconfigure(newline=None, errors='replace')", "sys.stdin.reconfigure(newline=None)"),
     ('revert-c18-undecodable-file', ['C18'], 'main.py', "open(file_path, errors='replace')", "open(file_path)"),
